@@ -76,5 +76,24 @@ def zip (a : Arr α) (b : Arr β) : Res (Arr (α × β)) :=
   b.broadcastTo a.shape >>= fun b' =>
   (Arr.flat (a.elems.zip b'.elems)).reshape a.shape
 
+/-- `broadcast_h2(self, other)`: both operands stretched to their common shape (element types may differ).
+`tmp_other = single(zero).broadcast_to(other.shape)`, `self.broadcast(tmp_other)`, then `other.broadcast_to(result shape)`. -/
+def broadcastH2 (a : Arr α) (zero : α) (b : Arr β) : Res (Arr α × Arr β) :=
+  (Arr.mk [zero] [1]).broadcastTo b.shape >>= fun tmpOther =>
+  a.broadcast tmpOther >>= fun tmp =>
+  (Arr.flat (tmp.elems.map (·.1))).reshape tmp.shape >>= fun arr =>
+  b.broadcastTo arr.shape >>= fun other =>
+  .ok (arr, other)
+
+/-- `broadcast_h3(self, other_1, other_2)` -/
+def broadcastH3 {γ : Type} (a : Arr α) (zero : α) (b : Arr β) (c : Arr γ) : Res (Arr α × Arr β × Arr γ) :=
+  (Arr.mk [zero] [1]).broadcastTo b.shape >>= fun t1 =>
+  (Arr.mk [zero] [1]).broadcastTo c.shape >>= fun t2 =>
+  broadcastArrays [a, t1, t2] >>= fun bs =>
+  (Res.idx bs 0) >>= fun arr =>
+  b.broadcastTo arr.shape >>= fun o1 =>
+  c.broadcastTo arr.shape >>= fun o2 =>
+  .ok (arr, o1, o2)
+
 end Arr
 end ArrModel
